@@ -185,6 +185,28 @@ class Hidden:
 # ----------------------------------------------------------------------------------------------
 # a case: the real objects, the abstract state, the protocol lines
 
+_FORM_COUNTER = [0]
+
+
+def action_form(a, linear=False):
+    """the same valid action in the forms callers really pass: Python int, numpy integer scalars, a 0-d integer array (what a
+    policy's `predict` returns) and — for the size-aggregated environment, whose `step` broadcasts — a one-element integer array.
+    Deterministic rotation, so that a replay uses the same form at the same position."""
+    _FORM_COUNTER[0] += 1
+    k = _FORM_COUNTER[0] % (7 if linear else 5)
+    if not isinstance(a, int) or a < 0:
+        return a, "as-given"
+    if k == 1:
+        return np.int64(a), "np.int64"
+    if k == 2:
+        return np.int32(a), "np.int32"
+    if k == 3:
+        return np.array(a), "0-d array"
+    if k == 5:
+        return np.array([a]), "1-element array"
+    return a, "int"
+
+
 class Case:
     def __init__(self, res: StreamResult, script: Script, name: str, n: int, comp: str, gap: str, budget,
                  initial: list[int], hidden: list[Hidden], prop: str, kind: str = "sa", linear: bool = False,
@@ -478,7 +500,9 @@ class Case:
             except Exception:       # noqa: BLE001
                 before_c07 = None
         try:
-            out = (env.unstep if un else env.step)(a)
+            a_form, form_name = action_form(a) if valid else (a, "as-given")
+            self.res.count(f"action-form:{form_name}")
+            out = (env.unstep if un else env.step)(a_form)
             ans = self.show_out(out)
             self.keep_obs(out[0], nm)
             if before_c07 is not None:
@@ -670,7 +694,9 @@ class Case:
         allowed = 0 <= k < self.n and bool(cands)
         chosen_idx = 0
         try:
-            out = lin.step(k)
+            k_form, form_name = action_form(k, linear=True) if allowed else (k, "as-given")
+            self.res.count(f"size-form:{form_name}")
+            out = lin.step(k_form)
             cid = int(out[4]["chosen_coalition"])
             chosen_idx = self.explorable.index(cid) if cid in self.explorable else 0
             self.register(K | {cid})
